@@ -75,14 +75,15 @@ def _findall(
     child_name = None
     child_index = None
     if seeked_xpath_list[0].strip() == '..':
-        if len(parent_nodes_stack) < 2:
+        # the node one level up is the one registered under the found xpath without its last element
+        upper_xpath_str = "//" + "/".join(found_xpath_list[:-1]).replace('/[', '[')
+        if not found_xpath_list or upper_xpath_str not in parent_nodes_stack:
             if raise_exception:
-                raise KeyError(f"Imposible to surface from {found_xpath_list+'/'+child_name}")
+                raise KeyError(f"Imposible to surface from {'//' + '/'.join(found_xpath_list).replace('/[', '[')}")
             else:
                 return None
-        del parent_nodes_stack[list(parent_nodes_stack.keys())[-1]]
         return _findall(
-                        parent_nodes_stack[list(parent_nodes_stack.keys())[-1]],
+                        parent_nodes_stack[upper_xpath_str],
                         # parent_nodes_stack,
                         seeked_xpath_list[1:],
                         found_xpath_list[:-1],
